@@ -1,5 +1,6 @@
 """C19 - pixel, jitter and smear blurs are flux-preserving convolutions on any shape."""
 import itertools, math
+from fractions import Fraction
 import numpy as rnp
 
 EXPLANATION = ('C19: detector.pixel / convolvable.jitter / smear on symbolic non-negative images of every aspect ratio; numpy\'s fft2/ifft2 by their defining sums over Z_r x Z_c with exact '
@@ -92,6 +93,10 @@ def cfg_js(tier, seed):
             if (s[0] * s[1] > 6 and ang in (30, 135)) and tier == 'quick':
                 continue
             out.append({'fn': 'smear', 'shape': list(s), 'os': 1 + (s[0] * s[1]) % 3, 'angle': ang})
+    # faint and bright copies of a fixed sparse scene in the ringing regime of the kernel (negative lobes under the modulus): the
+    # brightness is the symbolic input, so "every non-negative input" includes totals of 1e-12 as well as 1e+12
+    for fn, shape, ext, ang in (('smear', [1, 4], '7/4', 0), ('smear', [4, 1], '3/2', 90), ('smear', [2, 4], '7/4', 0), ('smear', [1, 6], '4', 0), ('jitter', [1, 4], '2/5', 0), ('jitter', [4, 2], '1/2', 0)):
+        out.append({'fn': fn, 'shape': shape, 'os': 1, 'angle': ang, 'faint': ext})
     return out, len(out), True
 
 
@@ -100,9 +105,16 @@ def run_js(W, cfg):
     W.float_constants()
     shp = tuple(cfg['shape'])
     cells = [(i, j) for i in range(shp[0]) for j in range(shp[1])]
-    img = W.reals('img', shp, nonneg=True, hi=1)
-    ext = W.real('extent', nonneg=True)
-    p = W.real('p', pos=True)
+    if cfg.get('faint'):
+        c = W.real('brightness', pos=True)
+        img = W.zeros(shp)
+        img[0, 0] = c                     # a point source: the band-limited kernel rings around it (even axes: the Nyquist sample)
+        ext = W.const(Fraction(cfg['faint']))
+        p = W.const(Fraction(1)) if W.sym else 1.0
+    else:
+        img = W.reals('img', shp, nonneg=True, hi=1)
+        ext = W.real('extent', nonneg=True)
+        p = W.real('p', pos=True)
     os = cfg['os']
     tot_in = W.sum(img[i, j] for i, j in cells)
     W.assume(tot_in > 0)
@@ -118,7 +130,8 @@ def run_js(W, cfg):
     W.ob_true('output shape = input shape', tuple(out.shape) == shp)
     for (i, j) in cells:
         W.ob_true(f'non-negative [{i},{j}]', out[i, j] >= 0)
-    W.ob('total signal kept', W.sum(out[i, j] for i, j in cells), tot_in)
+    unit = c if cfg.get('faint') else 1           # faint scenes are compared after dividing by their brightness (relative, not absolute)
+    W.ob('total signal kept', W.sum(out[i, j] for i, j in cells) / unit, tot_in / unit)
     # the transfer function is the analytic one on numpy's fftfreq grid (x <-> columns, y <-> rows), applied as a circular convolution
     fy, fx = rnp.fft.fftfreq(shp[0]), rnp.fft.fftfreq(shp[1])
     K = W.zeros(shp)
@@ -134,7 +147,7 @@ def run_js(W, cfg):
     blurred = W.np.abs(W.np.fft.ifft2(W.np.fft.fft2(img) * K))
     tb = W.sum(blurred[i, j] for i, j in cells)
     if W.sym or tb != 0:
-        W.ob('output = circular convolution with the analytic transfer function, renormalised', out, blurred * tot_in / tb)
+        W.ob('output = circular convolution with the analytic transfer function, renormalised', out / unit, blurred * tot_in / tb / unit)
     # extent in physical units with a pixel scale = the same extent in samples
     try:
         same = f(img, ext * 3, p * 3)
